@@ -19,7 +19,7 @@ Proof.
   destruct (Ascii.eqb_spec b "c") as [->|n6]; [right; eexists; reflexivity|].
   set (t := String "-" (String b r)) in *.
   assert (E : option_tuples om t =
-              List.app (if prefixb t "-isystem" then [CO (Some oP) None] else [])
+              List.app (if prefixb t "-isystem" then [CO (Some oS) None] else [])
                        (if prefixb t "-include" then [CO (Some oF) None] else [])).
   { unfold option_tuples. change (second_is_dash t) with (Ascii.eqb b "-").
     rewrite (proj2 (Ascii.eqb_neq _ _) n0).
